@@ -441,7 +441,9 @@ func init() {
 		return repeat(n, func() string {
 			return safely(func() string {
 				var pl gabi.ProofList
-				if o.boolean("direct") {
+				if o.boolean("emptylist") {
+					pl = make(gabi.ProofList, 0) // an empty list that is not nil (what an empty builder list builds)
+				} else if o.boolean("direct") {
 					pl = treesToProofList(o["proofs"])
 				} else if err := json.Unmarshal(raw, &pl); err != nil {
 					return "decode-error"
@@ -505,6 +507,23 @@ func init() {
 				}
 				return v
 			})
+		})
+	}
+	// the verification entry point that takes the challenge as given (used after the caller has
+	// computed it): on a freshly decoded proof, without anything else having been called on it
+	executors["verifyD-with-challenge"] = func(o Op) string {
+		raw := treeToGabiJSON(o["proof"])
+		pk := execKey(o.str("key")).pk
+		return safely(func() string {
+			p := &gabi.ProofD{}
+			if err := json.Unmarshal(raw, p); err != nil {
+				return "decode-error"
+			}
+			c := p.C
+			if o["challenge"] != nil {
+				c = unhx(o["challenge"])
+			}
+			return verdict(p.VerifyWithChallenge(pk, c))
 		})
 	}
 	executors["verifyU"] = func(o Op) string {
